@@ -13,7 +13,6 @@ from importlib import machinery
 import json
 import os
 import re
-import shutil
 import stat
 import tempfile
 import types
@@ -849,7 +848,9 @@ def _compile_module_file(template, text, filename, outputpath, module_writer):
         while view:
             view = view[os.write(dest, view) :]
         os.close(dest)
-        shutil.move(name, outputpath)
+        # atomic on every platform; shutil.move() degrades to copying
+        # into the destination when the rename fails
+        os.replace(name, outputpath)
 
 
 def _get_module_info_from_callable(callable_):
